@@ -59,7 +59,9 @@ func (m *Mutex) Lock() {
 		t.heldGlob++
 	}
 	joinVC(&t.vc, &m.vc)
-	s.trace("Lock %s", m.name)
+	if !m.global {
+		s.trace("Lock (instance mutex)")
+	}
 }
 
 func (m *Mutex) TryLock() bool {
@@ -108,7 +110,9 @@ func (m *Mutex) Unlock() {
 	}
 	m.vc = t.vc
 	t.vc[t.id]++
-	s.trace("Unlock %s", m.name)
+	if !m.global {
+		s.trace("Unlock (instance mutex)")
+	}
 }
 
 // RWMutex replaces sync.RWMutex.
